@@ -14,6 +14,25 @@ def stepLine (line : String) : String :=
     match requestVote (parseNode node) (natOr now) (parseRVReq req) with
     | none => "err"
     | some (n', r, eff) => s!"{showRVResp r} | {showNode n'} | {showEffects eff}"
+  | ["CASCADE", now, node] =>
+    -- one wake-up of the commit loop, then the apply loop until it has nothing to do,
+    -- then one wake-up of the read-only loop
+    let nowN := natOr now
+    let r0 := (parseNode node).commitStep nowN
+    let rec applyAll (fuel : Nat) (n : Node) (acc : List String) : Node × List String :=
+      match fuel with
+      | 0 => (n, acc)
+      | fuel + 1 =>
+        let r := n.applyStep nowN
+        match r.2.2 with
+        | .none => (r.1, acc ++ (if r.2.1.isEmpty then [] else ["FATAL"]))
+        | .noop i => applyAll fuel r.1 (acc ++ [s!"noop.{i}"])
+        | .config i _ _ => applyAll fuel r.1 (acc ++ [s!"config.{i}"])
+        | .op e _ => applyAll fuel r.1 (acc ++ [s!"op.{e.index}"])
+    let r1 := applyAll 64 r0.1 []
+    let r2 := r1.1.readOnlyStep nowN
+    let outs := r2.2.map (fun o => match o with | .served t => s!"served.{t}" | .invalidLease t => s!"invalid.{t}")
+    s!"{showNode r2.1} | {showEffects r0.2} | applied={joinList r1.2} outs={joinList outs}"
   | ["ECHO", node] => showNode (parseNode node)
   | ["QUORUM", cfg, count] => showBool ((parseConfig cfg).hasQuorum (natOr count))
   | ["ELECTION", now, node] =>
